@@ -266,6 +266,8 @@ var (
 	matchDateTimeZone = regexp.MustCompile(`^(.*)(?:(Z)|([\+\-]\d{2}):(\d{2}))$`)
 	// matchDateExpandedYear matches the expanded year form of 15.9.1.15.1: a sign and six digits.
 	matchDateExpandedYear = regexp.MustCompile(`^([\+\-]\d{6})(.*)$`)
+	// matchDateEndOfDay matches an ISO date-time whose time is 24:00, 24:00:00 or 24:00:00.000 (15.9.1.15).
+	matchDateEndOfDay = regexp.MustCompile(`^([^T]*T)24(:00(?::00(?:\.000)?)?(?:Z|[\+\-]\d{2}:\d{2})?)$`)
 )
 
 // msPer400Years is the length of one full cycle of the Gregorian calendar (146097 days).
@@ -290,6 +292,14 @@ func dateParse(date string) float64 {
 		date = strconv.FormatInt(standIn, 10) + match[2]
 	}
 
+	// 15.9.1.15 allows 24:00:00 for the instant at the end of a day; the layouts do not: read it as
+	// 00:00:00 and add the day afterwards.
+	var endOfDay int64
+	if match := matchDateEndOfDay.FindStringSubmatch(date); match != nil {
+		date = match[1] + "00" + match[2]
+		endOfDay = 24 * 60 * 60 * 1000
+	}
+
 	if match := matchDateTimeZone.FindStringSubmatch(date); match != nil {
 		if match[2] == "Z" {
 			date = match[1] + "+0000"
@@ -309,5 +319,5 @@ func dateParse(date string) float64 {
 		return math.NaN()
 	}
 
-	return float64(time.UnixMilli() + cycles*msPer400Years)
+	return float64(time.UnixMilli() + cycles*msPer400Years + endOfDay)
 }
